@@ -120,7 +120,9 @@ def iterate {α : Type} (f : α → α) : Nat → α → α
   | 0, a => a
   | n + 1, a => iterate f n (f a)
 
-/-- candidate rank: `|classes|` relaxation rounds from 0 (a rank exists iff this one is admitted) -/
+/-- candidate rank: `|classes|` rounds of longest-path relaxation from 0.  `hasRank` checks it with
+`admits`, so a positive answer is always a rank; for an acyclic table the rounds suffice because a
+longest path has fewer edges than there are classes (not needed by any theorem). -/
 def rankOf (table : List Edge) : Cls → Nat := iterate (relax table) Cls.all.length (fun _ => 0)
 
 /-- the rank as a table, so that it can be printed and compared -/
